@@ -107,6 +107,25 @@ static void* rng_thr(void* arg)
 	}
 	return 0;
 }
+/* churn: very short sessions, so that the reference count passes through zero (destroy / re-create of the shared state) while other threads
+   are entering: every thread holds its own reference whenever it uses the generator */
+static void* churn_thr(void* arg)
+{
+	uint64_t s = SEED * 17 + (uintptr_t)arg * 104729 + 5; unsigned r; unsigned char buf[64];
+	pthread_barrier_wait(&bar);
+	for (r = 0; r < ROUNDS * 4; ++r)
+	{
+		err_t e = rngCreate(0, 0);
+		INV(e == ERR_OK, "rngCreate failed with %u", (unsigned)e);
+		if (e != ERR_OK) continue;
+		INV(rngIsValid(), "rngIsValid() is FALSE while a reference is held");
+		if (xs(&s) & 1) { memset(buf, 0xA5, sizeof(buf)); rngStepR2(buf, 32, 0); keep_blocks(buf, 32); }
+		maybe_yield(&s);
+		rngClose();
+		if ((xs(&s) & 3) == 0) sched_yield();
+	}
+	return 0;
+}
 static int cmp32(const void* a, const void* b) { return memcmp(a, b, 32); }
 
 int main(int argc, char** argv)
@@ -119,6 +138,7 @@ int main(int argc, char** argv)
 	if (!strcmp(argv[1], "once")) fn = once_thr;
 	else if (!strcmp(argv[1], "atomic")) fn = atomic_thr;
 	else if (!strcmp(argv[1], "rng")) { fn = rng_thr; outs = malloc((size_t)MAXOUT * 32); }
+	else if (!strcmp(argv[1], "churn")) { fn = churn_thr; outs = malloc((size_t)MAXOUT * 32); }
 	else return 2;
 	for (i = 0; i < T; ++i) pthread_create(&th[i], 0, fn, (void*)(uintptr_t)i);
 	for (i = 0; i < T; ++i) pthread_join(th[i], 0);
@@ -127,7 +147,7 @@ int main(int argc, char** argv)
 		INV(actr == (size_t)T * ROUNDS * 100, "atomic counter %zu != %zu", actr, (size_t)T * ROUNDS * 100);
 		INV(cas_ctr == (size_t)T * ROUNDS * 100, "CAS counter %zu != %zu", cas_ctr, (size_t)T * ROUNDS * 100);
 	}
-	if (fn == rng_thr)
+	if (fn == rng_thr || fn == churn_thr)
 	{
 		size_t k;
 		INV(!rngIsValid(), "reference count not balanced: rngIsValid() after every thread closed");
